@@ -335,6 +335,9 @@ func (e *Engine) popFrame(st *State, results []Value) {
 		return
 	}
 	caller := st.top()
+	if fr.native == "once" {
+		st.onceDepth--
+	}
 	if fr.retry {
 		return // re-execute the caller's current instruction
 	}
@@ -615,6 +618,9 @@ func (e *Engine) step(st *State) {
 		e.set(fr, x, MapV{id})
 	case *ssa.MapUpdate:
 		m := e.val(st, fr, x.Map).(MapV)
+		if st.sharedMax != 0 && m.Obj != 0 && m.Obj <= st.sharedMax && st.onceDepth == 0 && st.lockDepth == 0 {
+			e.sharedWrite(st, m.Obj, "map update")
+		}
 		e.mapUpdate(st, m, e.val(st, fr, x.Key), e.val(st, fr, x.Value))
 	case *ssa.Lookup:
 		e.set(fr, x, e.lookup(st, fr, x))
@@ -852,6 +858,9 @@ func (e *Engine) invokeValue(st *State, fnv Value, args []Value, ci ssa.CallInst
 		nat, ok = harnessAPI[fn.Name()]
 		if ok {
 			r := nat(e, st, args, ci)
+			if _, pushed := r.(pushedFrame); pushed {
+				return
+			}
 			finish(r)
 			return
 		}
@@ -884,8 +893,13 @@ func (e *Engine) invokeValue(st *State, fnv Value, args []Value, ci ssa.CallInst
 	}
 	for g := range st.groups {
 		if m, ok := e.groupSubst[g][name]; ok {
-			e.stubs[name] = true
-			fn = m
+			if m == nil {
+				fn = cl.Fn // real body within this group
+				delete(e.stubs, name)
+			} else {
+				e.stubs[name] = true
+				fn = m
+			}
 		}
 	}
 	if fn.Blocks == nil {
@@ -1643,4 +1657,36 @@ func (e *Engine) selectOp(st *State, fr *Frame, x *ssa.Select) Value {
 	return Tuple{vals}
 }
 
-func (e *Engine) recordAccess(st *State, p Ptr, write bool) {}
+// recordAccess implements the shared-state write monitor of C17: between vSharedBegin and
+// vSharedEnd every write to an object that existed at vSharedBegin, made outside a sync.Once
+// body and without a held mutex, is a data race between two concurrent calls of the method.
+func (e *Engine) recordAccess(st *State, p Ptr, write bool) {
+	if !write || st.sharedMax == 0 || p.Obj == 0 || p.Obj > st.sharedMax || st.onceDepth > 0 || st.lockDepth > 0 {
+		return
+	}
+	e.sharedWrite(st, p.Obj, "store")
+}
+
+func (e *Engine) sharedWrite(st *State, obj int, what string) {
+	// bookkeeping of the models (ghost maps) is not program state
+	if fr := st.top(); fr.fn.Pkg != nil && fr.fn.Pkg == e.modelsPkg {
+		return
+	}
+	pos := posOf(st, e)
+	rec := AssertRec{Label: "shared-write@" + pos, Pos: pos, Kind: "race", Msg: what + " to shared state without synchronisation | " + e.stackTrace(st)}
+	r, cex := e.model(st, nil, e.cfg.AssertTimeoutMs)
+	if r == Unsat {
+		return
+	}
+	rec.Result = "violated"
+	if r != Sat {
+		rec.Result = "unknown"
+	}
+	rec.Cex = cex
+	for _, a := range e.res.Asserts {
+		if a.Label == rec.Label {
+			return
+		}
+	}
+	e.res.Asserts = append(e.res.Asserts, rec)
+}
